@@ -53,6 +53,10 @@ func cmdNF(args []string) {
 			s = semA()
 		case 1:
 			s = semB()
+		case 2, 3, 4, 5, 6, 7, 8, 9, 10, 11, 12, 13:
+			s = semA()
+			s.MaxAge = []int{-1, 0, 1, 2, 4, 5, 6, 10, 60, 600, 86399, 86400}[i-2]
+			s.Status = []int{204, 200, 201, 203, 205, 206, 226, 250, 255, 256, 298, 299}[i-2]
 		default:
 			s = randSem(rng)
 			if i%5 == 0 { // more structure in the origin tree: families on families
